@@ -187,8 +187,60 @@ def judge(chk, key, prefix, uni_cfg, hash_too):
                            "prefix_hex": prefix.hex(), "unicode": uni_cfg, "hash_too": hash_too})
 
 
+def _verdict(fn):
+    try:
+        return ("ok", fn())
+    except MemcacheIllegalInputError:
+        return ("illegal", None)
+    except Exception as e:  # noqa
+        return ("other:" + type(e).__name__, None)
+
+
+def history_cases(key, prefix, uni):
+    """Validation has no memory: the verdict and wire form for (key, prefix) on a long-lived client are
+    the same whatever was validated before - the same key under another prefix (stats and
+    cache_memlimit validate their arguments without the prefix), or another key.
+    Yields (label, verdict after the history, verdict on a fresh client)."""
+    other = b"" if prefix else b"zz:"
+    fresh = _verdict(lambda: Client("/s", key_prefix=prefix, allow_unicode_keys=uni).check_key(key, prefix))
+    c = Client("/s", key_prefix=prefix, allow_unicode_keys=uni)
+    _verdict(lambda: c.check_key(key, other))
+    yield f"check_key(k, {other!r}); check_key(k, prefix)", _verdict(lambda: c.check_key(key, prefix)), fresh
+    fresh_o = _verdict(lambda: Client("/s", key_prefix=prefix, allow_unicode_keys=uni).check_key(key, other))
+    c = Client("/s", key_prefix=prefix, allow_unicode_keys=uni)
+    _verdict(lambda: c.check_key(key, prefix))
+    yield f"check_key(k, prefix); check_key(k, {other!r})", _verdict(lambda: c.check_key(key, other)), fresh_o
+    for cls, args in ((Client, ("/s",)), (PooledClient, ("/s",)), (HashClient, (["/s"],))):
+        def wire_of_get(obj, mod):
+            mod.log.clear()
+            obj.get(key)
+            return b"".join(mod.log)
+
+        mod = RecModule()
+        fresh_w = _verdict(lambda: wire_of_get(cls(*args, key_prefix=prefix, allow_unicode_keys=uni, socket_module=mod), mod))
+        mod = RecModule()
+        obj = cls(*args, key_prefix=prefix, allow_unicode_keys=uni, socket_module=mod)
+        if hasattr(obj, "stats"):
+            _verdict(lambda: obj.stats(key))
+            yield f"{cls.__name__}: stats(k); get(k)", _verdict(lambda: wire_of_get(obj, mod)), fresh_w
+
+
 def _worker(job, chk):
     kind, as_str, prefix, uni, tier = job
+    if kind == "history":
+        for k in keyspace.class_keys(2, as_str):
+            if keyspace.legal(k, prefix, bool(uni))[0] == "outside":
+                continue
+            for label, got, want in history_cases(k, prefix, uni):
+                chk.add()
+                chk.outcome(("history", label.split(":")[0][:24], got[0], len(prefix), uni))
+                if got != want:
+                    chk.violation(f"validation-depends-on-history|{label.split('(')[0]}|{keyspace.reason(k, prefix, bool(uni))}",
+                                  f"key={k!r}, prefix={prefix[:12]!r}, allow_unicode_keys={uni}: after [{label}] the last call gives "
+                                  f"{got!r}; on a fresh client it gives {want!r}",
+                                  {"key": k if isinstance(k, str) else {"hex": k.hex()}, "is_str": isinstance(k, str),
+                                   "prefix_hex": prefix.hex(), "unicode": uni, "hash_too": True, "history": True})
+        return
     if kind == "short":
         n = 1 if tier == "quick" else 2
         for k in keyspace.short_keys(n, as_str):
@@ -219,7 +271,7 @@ def _worker(job, chk):
 
 def _jobs(tier):
     jobs = []
-    for kind in ("short", "class2", "class3", "long", "boundary"):
+    for kind in ("short", "class2", "class3", "long", "boundary", "history"):
         for as_str in (False, True):
             for prefix in keyspace.PREFIXES:
                 for uni in (False, True):
@@ -241,6 +293,13 @@ def run(chk):
 def replay(detail):
     key = detail["key"] if detail["is_str"] else bytes.fromhex(detail["key"]["hex"])
     prefix = bytes.fromhex(detail["prefix_hex"])
+    if detail.get("history"):
+        out = []
+        for label, got, want in history_cases(key, prefix, detail["unicode"]):
+            print(f"    [{label}] -> {got!r}   (fresh client: {want!r})")
+            if got != want:
+                out.append(f"after [{label}]: {got!r}, fresh client {want!r}")
+        return out
     tmp = runner.Check(PROPERTY, LEVEL, "quick", 0)
     judge(tmp, key, prefix, detail["unicode"], True)
     print("    oracle:", keyspace.legal(key, prefix, detail["unicode"]))
